@@ -3,6 +3,7 @@ CONSTANTS N = 5
           NMin = 5
           Adj <- Adj3
           D0 = 1000000
+          Rule = "eth"
           Family = "all"
           LA = 0
           LB = 0
@@ -11,4 +12,5 @@ CONSTANTS N = 5
           InOrder = TRUE
           EmitOn = TRUE
 CONSTRAINT Emit
+INVARIANT PropC27
 CHECK_DEADLOCK FALSE
